@@ -71,6 +71,8 @@ pub enum Fault {
     WrongAad(B),
     /// replace ct||tag altogether
     Garbage(B),
+    /// detached tag made longer by these bytes (for the allocating forms: same as Extend)
+    TagExtend(B),
 }
 
 #[derive(Clone, Copy, Debug, PartialEq, Eq, Serialize, Deserialize, Hash)]
@@ -125,6 +127,9 @@ pub enum Ev {
     PskProbe { psk: B, psk_id: B },
     /// raw open with arbitrary bytes on receiver r (no model record involved)
     RawOpen { r: usize, ct: B, aad: B, tag: Option<B> },
+    /// content-dependent adversary: for every record of sender `from` whose ct||tag ends in zero
+    /// bytes, deliver it with exactly those bytes stripped (receiver re-pinned on the record's position)
+    StripZerosProbe { r: usize, from: usize },
     /// single-shot open with explicit (possibly hostile) inputs, compared with setup_receiver + open
     SingleShotOpenRaw { cfg: Cfg, kr: usize, ks: Option<usize>, enc: EncSrc, ct: B, aad: B, tag: Option<B> },
     /// C18: event `ev` of world `w`, executed on worker thread `t` (token passing: exactly one worker
@@ -159,6 +164,7 @@ impl Ev {
             Ev::PskProbe { .. } => "PskProbe",
             Ev::RawOpen { .. } => "RawOpen",
             Ev::On { .. } => "On",
+            Ev::StripZerosProbe { .. } => "StripZerosProbe",
             Ev::SingleShotOpenRaw { .. } => "SingleShotOpenRaw",
         }
     }
